@@ -488,6 +488,74 @@ fn exec_stream(seed: &str, forest: &str, roots: &str) -> String {
 }
 
 // ------------------------------------------------------------------------------------------------
+// snaps: many snapshots, real `check` and `prune_plan`
+
+/// `c13 snaps <seed[.pool[.watchdog]]> <n>`: a repository with n snapshots whose root trees are pairwise different (stored through
+/// the hooks, one tree per pack); the real `check` (trees only) and `prune_plan` must return — both give ALL snapshot roots to
+/// `TreeStreamerOnce::new` at once — and `check` must report no error.
+fn exec_snaps(seed: &str, n: &str) -> String {
+    let (Some((seed, pool, wd_secs)), Some(n)) = (parse_seed_pool(seed), n.parse::<u64>().ok().filter(|n| (1..=20_000).contains(n))) else {
+        return "bad-op".into();
+    };
+    let wd_secs = stream_wd(wd_secs, 2 * n as usize);
+    let threads = match pool {
+        Pool::Default => 0,
+        Pool::Installed(k) => k,
+        Pool::Global(k) => {
+            return match in_child(k, wd_secs + 5, &format!("c13 snaps {seed}.0.{wd_secs} {n}")) {
+                Ok(s) => s,
+                Err(e) if e == "timeout" => "oracle-fail:timeout".into(),
+                Err(e) => e,
+            };
+        }
+    };
+    let cfg = ConfigOptions::default().set_treepack_size(bytesize::ByteSize(1)).set_treepack_growfactor(0u32);
+    let h = tryk!(DH::init(DelayBackend::new(seed, 0), &cfg));
+    {
+        let repo = tryk!(h.open());
+        let mut blobs = vec![];
+        for i in 1..=n {
+            // a root directory holding one empty file whose name differs from snapshot to snapshot
+            let mut f = Node::new_node(&OsString::from(format!("id{i}")), NodeType::File, Metadata::default());
+            f.content = Some(vec![]);
+            let (chunk, _) = Tree { nodes: vec![f] }.serialize().unwrap();
+            blobs.push((BlobType::Tree, chunk, BlobId::from(fake_id(i, TAG_TREE))));
+        }
+        _ = tryk!(rustic_core::verif::packer::pack_blobs(&repo, blobs));
+        for i in 1..=n {
+            let mut snap = new_snap();
+            snap.tree = TreeId::from(fake_id(i, TAG_TREE));
+            tryk!(rustic_core::verif::repository::save_file(&repo, &snap));
+        }
+    }
+    let mut hd = h.clone();
+    hd.be.max_us = if seed % 3 == 0 { 0 } else { 1000 };
+    let res = watchdog(wd_secs, move || -> Result<Vec<String>, String> {
+        in_pool(threads, move || {
+            let repo = hd.open().map_err(|e| crate::util::errkind(&e))?;
+            let res = repo.check(CheckOptions::default()).map_err(|e| crate::util::errkind(&e))?;
+            let mut v: Vec<String> = res
+                .0
+                .iter()
+                .filter(|(l, _)| format!("{l:?}") == "Error")
+                .map(|(_, e)| format!("{e:?}").split(|c: char| !c.is_alphanumeric()).next().unwrap_or("?").to_string())
+                .collect();
+            v.sort();
+            v.dedup();
+            let repo = repo.to_indexed_ids().map_err(|e| crate::util::errkind(&e))?;
+            _ = repo.prune_plan(&PruneOptions::default()).map_err(|e| crate::util::errkind(&e))?;
+            Ok(v)
+        })
+    });
+    match res {
+        None => "oracle-fail:timeout".into(),
+        Some(Err(e)) => e,
+        Some(Ok(v)) if v.is_empty() => format!("ok snaps={n}"),
+        Some(Ok(v)) => format!("oracle-fail:check-errors:{}", v.join("+")),
+    }
+}
+
+// ------------------------------------------------------------------------------------------------
 // run / hist
 
 /// One run: seed of the latencies, data / tree pack size, rayon pool, and `repack = Some(ms)`: every pack write sleeps
@@ -1049,6 +1117,12 @@ pub fn generate(thorough: bool, rng: &mut Rng, ops: &mut Vec<String>, stats: &mu
         let kind = if i < 2 { i } else if i < 4 { i + 1 } else { r.below(3) };
         ops.push(gen_stream_wide(&mut r, kind, stats));
     }
+    // more snapshots than any fixed queue bound: real `check` + `prune_plan`
+    for _ in 0..(if thorough { 4 } else { 1 }) {
+        let mut r = rng.fork();
+        stats.hit("c13.snaps");
+        ops.push(format!("c13 snaps {}.{} {}", r.below(1000), gen_pool(&mut r, stats), r.range(1100, 1500)));
+    }
     for i in 0..(if thorough { 6 } else { 2 }) {
         let mut r = rng.fork();
         let (a, b) = gen_src_wide(&mut r, stats);
@@ -1091,6 +1165,11 @@ fn budget_of(t: &[&str]) -> Option<(u64, bool)> {
             Some((2 * wd + 10 * runs.len() as u64 + 20, true))
         }
         ["chk", ms] => ms.parse::<u64>().ok().map(|_| (WD_SECS + 15, true)),
+        ["snaps", seed, n] => {
+            let (_, _, wd) = parse_seed_pool(seed)?;
+            let n = n.parse::<u64>().ok().filter(|n| (1..=20_000).contains(n))?;
+            Some((stream_wd(wd, 2 * n as usize) + 20, wd == 0))
+        }
         _ => None,
     }
 }
@@ -1111,6 +1190,7 @@ pub fn exec(t: &[&str]) -> String {
             ["hist", a, b, runs] => exec_run(a, runs, Some(b)),
             ["solo", k, a, b, run] => exec_solo(k, a, b, run),
             ["chk", ms] => exec_chk(ms),
+            ["snaps", seed, n] => exec_snaps(seed, n),
             _ => "bad-op".into(),
         }
     })
